@@ -49,6 +49,70 @@ def run_file(rs_name, timeout=3000):
         lock.close()
 
 
+def run_demos(pid, entries, timeout=3000):
+    """Findings / repaired defects whose replay is a FAILING-TEST demo (`"demo": "replays/demos/<ID>.rs"`): an
+    integration test file, written against the public API, whose tests state what the property demands and therefore
+    FAIL (or panic, or time out) on a tree that has the defect.  All demos of one property are compiled as ONE test
+    crate (each file wrapped in its own `mod`), run against a scratch copy of the working tree.
+    -> dict id -> (PRESENT|ABSENT, detail), raw output, ok"""
+    if not entries:
+        return {}, '', True
+    lock = open('/tmp/vx-replay.lock', 'w')
+    fcntl.flock(lock, fcntl.LOCK_EX)
+    try:
+        if os.path.exists(SCRATCH):
+            shutil.rmtree(SCRATCH)
+        subprocess.run(['rsync', '-a', '--exclude', 'target', '--exclude', '.git', REPO.rstrip('/') + '/', SCRATCH + '/'], check=True)
+        for root, _dirs, files in os.walk(os.path.join(SCRATCH, 'src')):
+            for fn in files:
+                os.utime(os.path.join(root, fn), None)
+        for fn in ('Cargo.toml', 'build.rs'):
+            if os.path.exists(os.path.join(SCRATCH, fn)):
+                os.utime(os.path.join(SCRATCH, fn), None)
+        parts = ['#![allow(unused, clippy::all)]']
+        mods = {}
+        for e in entries:
+            m = 'demo_' + e['id'].lower()
+            mods[m] = e['id']
+            body = open(os.path.join(VERIF, e['demo'])).read()
+            body = '\n'.join(l for l in body.split('\n') if not l.lstrip().startswith('#!['))
+            parts.append('mod %s {\n%s\n}' % (m, body))
+        test_name = 'vx_demos_' + pid
+        open(os.path.join(SCRATCH, 'tests', test_name + '.rs'), 'w').write('\n'.join(parts))
+        env = dict(os.environ, CARGO_NET_OFFLINE='true', CARGO_TARGET_DIR=os.path.join('/repo', 'target'), RUST_BACKTRACE='0')
+        env.pop('RUSTUP_TOOLCHAIN', None)
+        try:
+            p = subprocess.run(['timeout', '600', 'cargo', 'test', '--offline', '--test', test_name, '--', '--test-threads', '4'],
+                               cwd=SCRATCH, env=env, capture_output=True, text=True, timeout=timeout)
+            out = p.stdout + '\n' + p.stderr
+        except subprocess.TimeoutExpired:
+            return {}, 'timeout', False
+        if 'test result:' not in out and 'running ' not in out:
+            return {}, out, False   # did not compile / run
+        res = {}
+        failed = {}
+        seen = set()
+        for mm in re.finditer(r'^test (demo_\w+)::(\S+) \.\.\. (ok|FAILED)', out, re.M):
+            seen.add(mm.group(1))
+            if mm.group(3) == 'FAILED':
+                failed.setdefault(mm.group(1), []).append(mm.group(2))
+        # a test that hangs is killed by `timeout`: its line never gets a verdict
+        hung = set(mm.group(1) for mm in re.finditer(r'^test (demo_\w+)::\S+ has been running', out, re.M))
+        for m, fid in mods.items():
+            if m in failed:
+                first = re.search(r"thread '%s::[^']*' panicked at [^\n]*\n([^\n]*)" % m, out)
+                res[fid] = ('PRESENT', 'demo test(s) %s fail: %s' % (', '.join(failed[m]), (first.group(1) if first else '').strip()[:300]))
+            elif m in seen and p.returncode in (0, 101):
+                res[fid] = ('ABSENT', 'all demo tests pass')
+            elif p.returncode == 124:
+                res[fid] = ('PRESENT', 'demo did not finish within 600 s (the build hangs)')
+        return res, out, True
+    finally:
+        shutil.rmtree(SCRATCH, ignore_errors=True)
+        fcntl.flock(lock, fcntl.LOCK_UN)
+        lock.close()
+
+
 def run_known(pid, rs_files, kf):
     """yields (line_or_None, ok, info).  ok=False means the replay machinery itself failed."""
     results = {}
@@ -62,6 +126,15 @@ def run_known(pid, rs_files, kf):
             yield None, False, 'replay %s failed to build/run: %s' % (f, out[-600:].replace('\n', ' '))
             continue
         results.update(res)
+    demo_entries = [e for e in kf.get('findings', []) + kf.get('fixed', []) if e.get('demo') and pid in e['properties']]
+    if demo_entries:
+        try:
+            dres, dout, dok = run_demos(pid, demo_entries)
+        except Exception as e:  # noqa
+            dres, dout, dok = {}, str(e), False
+        if not dok:
+            yield None, False, 'demo replays of %s failed to build/run: %s' % (pid, dout[-600:].replace('\n', ' '))
+        results.update(dres)
     for fd in kf.get('findings', []):
         if pid not in fd['properties']:
             continue
